@@ -229,6 +229,23 @@ theorem itemLoop_sim {c : Cfg} {x : CSt} {s : St} (hw : c.WF) (pw : PW) (p st : 
       simp only [itemLoop, e1, hfr, Bool.false_eq_true, if_false]
       exact itemLoop_fresh pw p st fuel s1.flush hi2 hfr2
 
+/-- **the loop that the repair removed** (audit concern 4): without the test for an empty message a
+report that fits no message makes the loop of `report_attributes` go round for ever — every round
+sends one more message that carries no report; no amount of fuel is enough -/
+theorem oversize_item_loops_before_fix (c : Cfg) (pw : PW) (p : Piece)
+    (hbig : c.limit < c.hdr + c.arrOpen + p.size) : ∀ (fuel : Nat) (x : CSt), x.wb.live = frame c →
+    itemLoopOld c pw p fuel x = .error .loops := by
+  intro fuel
+  induction fuel with
+  | zero => intro x _; rfl
+  | succ fuel ih =>
+    intro x hx
+    have ht : x.wb.tail = c.hdr + c.arrOpen := by rw [WB.tail, hx, frame_length]
+    obtain ⟨cs, hp⟩ := WB.put_nofit pw (.rep p) (w := x.wb) (lim := c.limit) (n := p.size) (by omega)
+    simp only [itemLoopOld, itemStepOld, CSt.processRead, hp, Bool.false_eq_true, if_false]
+    apply ih
+    simp [CSt.flush, WB.push, WB.rewindTo]
+
 /-! ## `send_array_items` -/
 
 /-- size level: the streamed elements from index `k` on, then the end-of-list read -/
